@@ -526,6 +526,30 @@ def iterator_item(funcs, callee):
     return ""
 
 
+_DISC_READ = {}
+
+
+def discriminant_read(fn, loc):
+    """does the body read `discriminant(loc)` (directly or through a reference to loc)?"""
+    k = id(fn)
+    if k not in _DISC_READ:
+        locs = set()
+        refs = {}
+        for b in fn.blocks.values():
+            for s_ in b.stmts:
+                m = re.match(r"(_\d+) = &(?:mut )?(_\d+);$", s_)
+                if m:
+                    refs[m.group(1)] = m.group(2)
+        for b in fn.blocks.values():
+            for s_ in b.stmts:
+                m = re.search(r"discriminant\((?:\(\*(_\d+)\)|(_\d+))\)", s_)
+                if m:
+                    l = m.group(1) or m.group(2)
+                    locs.add(refs.get(l, l)); locs.add(l)
+        _DISC_READ[k] = locs
+    return loc in _DISC_READ[k]
+
+
 def match_events(g, events):
     """events: name -> dict(call=regex [, arg=regex][, argn=int]) | dict(drop_type=regex) |
     dict(stmt=regex) | dict(ret=True)"""
@@ -557,6 +581,10 @@ def match_events(g, events):
                 if re.search(e["drop_type"], ty) and not any(
                         re.search(frx, n.fn.name) and re.search(trx, ty) for frx, trx in e.get("allow", [])):
                     hit = True
+                    # a value whose discriminant the body reads (`match` / `if let` on it) was examined;
+                    # dropping it afterwards is not "dropping a Result unexamined"
+                    if e.get("examined_ok", True) and discriminant_read(n.fn, loc):
+                        hit = False
                     if "fn" in e and not re.search(e["fn"], n.fn.name):
                         hit = False
             if "move_type" in e and blk.kind == "call":
